@@ -521,14 +521,19 @@ def run(c):
                 s2 = '\n'.join(lines)
             else:
                 import ast as _ast
-                inloop = []     # text of the mutating statements inside parallel loops
+                inloop = []     # target expressions of the mutating statements inside parallel loops
                 for node in _ast.walk(_ast.parse(s)):
                     if isinstance(node, _ast.With) and isinstance(node.items[0].context_expr, _ast.Call) and X.dotted(node.items[0].context_expr.func) == 'parallel.ctxrange':
-                        inloop += [_ast.unparse(sub) for sub in _ast.walk(node) if isinstance(sub, _ast.Expr) and isinstance(sub.value, _ast.Call)]
+                        for sub in _ast.walk(node):
+                            if isinstance(sub, _ast.Expr) and isinstance(sub.value, _ast.Call):
+                                call = sub.value; kw = {q.arg: q.value for q in call.keywords}
+                                tgt = kw.get('out') or (call.args[0] if (X.dotted(call.func) or '').endswith(('.at', 'numpy.copyto')) and call.args else None) \
+                                    or (call.func.value if isinstance(call.func, _ast.Attribute) and call.func.attr == 'fill' else None)
+                                if tgt is not None: inloop.append(_ast.unparse(tgt))
                 lines = s.split('\n'); cand = []
                 for k, l in enumerate(lines):
                     m_ = re.match(r'\s+(v\d+) = parallel\.shempty\(', l)
-                    if m_ and any(re.search(r'\b%s\b' % m_.group(1), t) and (t.startswith('numpy.add') or t.startswith('numpy.copyto') or '.fill(' in t) for t in inloop):
+                    if m_ and any(re.search(r'\b%s\b' % m_.group(1), t.split('[')[0]) for t in inloop):
                         cand.append(k)
                 if not cand: continue
                 k = R['x'].choice(cand)
